@@ -372,6 +372,8 @@ class Interp:
         f = e.func
         if isinstance(f, ast.Attribute):
             base = self.ev(f.value, env, module)
+            if type(base).__name__ == "ClassRef" and hasattr(base, "cls"):
+                base = base.cls      # the class named in the source (`PlotTypeInspector._helper(...)`)
             args = [self.ev(a, env, module) for a in e.args]
             if isinstance(base, Elem):
                 if f.attr == "xpath":
@@ -415,6 +417,8 @@ class Interp:
             return self.call(fn.fnode, fn.module, args, closure_env=fn.env)
         if isinstance(fn, BoundMethod):
             g = self.prog.lookup(fn.cls, fn.name)
+            if g.kind == "staticmethod":
+                return self.call(g.node, g.module, args)     # no implicit first argument
             return self.call(g.node, g.module, [("cls", fn.cls)] + args)
         if isinstance(fn, tuple) and fn and fn[0] == "builtin":
             if fn[1] == "bool":
